@@ -253,7 +253,7 @@ func (m *Model) stepSet(c chk, name string, a []string) (error, bool) {
 		if len(res) == 0 {
 			m.del(a[0])
 		} else {
-			m.set(a[0], newSet(res))
+			m.setStore(a[0], newSet(res))
 		}
 		return c.integer(int64(len(res))), true
 	case "SMOVE":
